@@ -16,12 +16,13 @@ def run(ctx):
                         "the import path is exercised with well-formed key files of other dimensions where no matching setup was exported (it only has to compile the same circuit)"]
     cli = ctx.build_cli()
     if ctx.quick:
-        dims = [["insertion", 1, 1], ["deletion", 2, 1], ["insertion", 3, 2]]
+        # incl. dimensions whose hash input spans two Keccak blocks with variables in the second (insertion batch >= 3, deletion batch >= 18)
+        dims = [["insertion", 1, 1], ["deletion", 2, 1], ["insertion", 3, 2], ["insertion", 2, 3], ["deletion", 1, 18]]
         paths, procs, reps = ["r1cs", "cli", "import"], [1, 16], 1
         setup_dims = [["deletion", 2, 1], ["insertion", 1, 1]]
     else:
         dims = [["insertion", 1, 1], ["insertion", 2, 2], ["insertion", 3, 2], ["insertion", 8, 3], ["insertion", 32, 1], ["deletion", 1, 1], ["deletion", 2, 1], ["deletion", 3, 2],
-                ["deletion", 8, 3], ["deletion", 31, 1]]
+                ["deletion", 8, 3], ["deletion", 31, 1], ["insertion", 2, 3], ["insertion", 3, 7], ["deletion", 1, 18], ["deletion", 2, 19], ["deletion", 2, 53]]
         paths, procs, reps = ["r1cs", "cli", "import"], [1, 2, 16], 2
         setup_dims = [["insertion", 2, 2], ["deletion", 2, 1], ["deletion", 3, 2]]
     guard = [["deletion", 32, 1], ["deletion", 33, 2], ["deletion", 63, 1], ["deletion", 64, 1], ["deletion", 100, 1]]
